@@ -171,7 +171,36 @@ def _short(v):
     return r if len(r) < 40 else r[:37] + "..."
 
 
+_foreign = []
+
+
+def foreign_members(own):
+    """Members of every OTHER enumeration python-pptx ships (XML-mapped or not): wrong Python types for an enumerated attribute
+    that happen to be ints.  Either rejected, or taken as the int they are and written as one of the attribute type's own tokens."""
+    if not _foreign:
+        from pptx.enum.base import BaseEnum, BaseXmlEnum
+
+        import pptx.enum.action, pptx.enum.chart, pptx.enum.dml, pptx.enum.lang, pptx.enum.shapes, pptx.enum.text  # noqa
+
+        def subs(c):
+            for s in c.__subclasses__():
+                yield s
+                yield from subs(s)
+
+        seen = []
+        for E in list(subs(BaseXmlEnum)) + list(subs(BaseEnum)):
+            if E not in seen and E.__name__ != "MSO_LANGUAGE_ID":  # 200+ members: three of them stand for all
+                seen.append(E)
+                _foreign.extend(list(E))
+        from pptx.enum.lang import MSO_LANGUAGE_ID
+
+        _foreign.extend(list(MSO_LANGUAGE_ID)[:3])
+    return [(m, "foreign-enum-member") for m in _foreign if type(m) is not own]
+
+
 def vclass_key(v):
+    if hasattr(type(v), "__members__"):
+        return "enum-member"
     if isinstance(v, bool):
         return "bool"
     if isinstance(v, float):
@@ -241,6 +270,8 @@ def check_attr(T, cls, d, acc, grid):
         return
     acc.count("attribute_declarations")
     ident = "%s/@%s" % (tT, d["attr"])
+    if hasattr(st, "__members__"):
+        grid = list(grid) + [(mb, "own-enum-member") for mb in st if mb.xml_value] + foreign_members(st)
     for v, vcls in grid:
         el = oxml_parser.makeelement(T)
         before = dict(el.attrib)
@@ -303,7 +334,14 @@ def check_attr(T, cls, d, acc, grid):
             same = isinstance(vv, str) and got == vv.upper()
         else:
             same = close(stname, vv, got)
-        if not same:
+        if not same and hasattr(st, "__members__") and sum(1 for mb in st if mb.xml_value == wrote) > 1:
+            # two members of the enumeration share this token (C20's duplicate-token findings): the later one reads back as the earlier
+            acc.violation(
+                "readback:duplicate-token:%s:%s:%s" % (stname, wrote, st(vv).name),
+                "%s = %s wrote %r, which %s also stands for: read back %r" % (ident, _short(v), wrote, [mb.name for mb in st if mb.xml_value == wrote], got),
+                {"T": T, "prop": d["prop"], "value": repr(v)},
+            )
+        elif not same:
             acc.violation(
                 "readback-outside-quantum:%s" % stname,
                 "%s = %s wrote %r, read back %r" % (ident, _short(v), wrote, got),
